@@ -14,6 +14,7 @@ use miniscript::bitcoin::secp256k1::{Secp256k1, SecretKey};
 use miniscript::bitcoin::taproot::TapLeafHash;
 use miniscript::bitcoin::{self, absolute, relative, Sequence};
 use miniscript::miniscript::satisfy::{Placeholder, Satisfaction, Witness};
+use miniscript::Satisfier;
 use miniscript::plan::{AssetProvider, Assets};
 use miniscript::policy::{Liftable, Semantic};
 use miniscript::{
@@ -635,6 +636,104 @@ impl AssetProvider<Pk> for GenAssets<'_> {
     }
 }
 
+/// The same asset valuation as a `Satisfier` with concrete (never verified) signatures, for the
+/// descriptor-level entry points `Descriptor::get_satisfaction(_mall)`.
+pub struct GenSat<'a> {
+    pub ga: &'a GenAssets<'a>,
+    pub sf: &'a c13::SigFix,
+}
+impl Satisfier<Pk> for GenSat<'_> {
+    fn lookup_ecdsa_sig(&self, pk: &Pk) -> Option<bitcoin::ecdsa::Signature> {
+        let k = self.ga.fix.key_id(pk)? as usize;
+        if (self.ga.sigs >> k) & 1 == 1 {
+            bitcoin::ecdsa::Signature::from_slice(&self.sf.ecdsa_ok[k]).ok()
+        } else {
+            None
+        }
+    }
+    fn lookup_tap_leaf_script_sig(&self, pk: &Pk, _: &TapLeafHash) -> Option<bitcoin::taproot::Signature> {
+        let k = self.ga.fix.key_id(pk)? as usize;
+        if (self.ga.sigs >> k) & 1 == 1 {
+            bitcoin::taproot::Signature::from_slice(&self.sf.schnorr_ok[k]).ok()
+        } else {
+            None
+        }
+    }
+    fn lookup_sha256(&self, h: &sha256::Hash) -> Option<[u8; 32]> { self.ga.fix.sha.iter().position(|x| x == h).filter(|j| (self.ga.pres >> j) & 1 == 1).map(|j| self.ga.fix.pre[j]) }
+    fn lookup_hash256(&self, h: &hash256::Hash) -> Option<[u8; 32]> { self.ga.fix.h256.iter().position(|x| x == h).filter(|j| (self.ga.pres >> j) & 1 == 1).map(|j| self.ga.fix.pre[j]) }
+    fn lookup_ripemd160(&self, h: &ripemd160::Hash) -> Option<[u8; 32]> { self.ga.fix.rip.iter().position(|x| x == h).filter(|j| (self.ga.pres >> j) & 1 == 1).map(|j| self.ga.fix.pre[j]) }
+    fn lookup_hash160(&self, h: &hash160::Hash) -> Option<[u8; 32]> { self.ga.fix.h160.iter().position(|x| x == h).filter(|j| (self.ga.pres >> j) & 1 == 1).map(|j| self.ga.fix.pre[j]) }
+    fn check_older(&self, t: relative::LockTime) -> bool { AssetProvider::<Pk>::check_older(self.ga, t) }
+    fn check_after(&self, t: absolute::LockTime) -> bool { AssetProvider::<Pk>::check_after(self.ga, t) }
+}
+
+/// Elements of a descriptor-level satisfaction (witness + scriptSig), wrapper items stripped,
+/// mapped back to abstract elements.
+fn unmap_satisfaction(fix: &Fix, sf: &c13::SigFix, ctx: u8, wit: &[Vec<u8>], script_sig: &bitcoin::Script, script: &bitcoin::Script) -> Result<Vec<El2>, String> {
+    let mut items: Vec<Vec<u8>> = vec![];
+    if !wit.is_empty() {
+        items = wit.to_vec();
+        let strip = if ctx == vm::TAP { 2 } else { 1 };
+        if items.len() < strip || items[items.len() - strip] != script.as_bytes() {
+            return Err("descriptor-level witness does not end with the script (and control block)".into());
+        }
+        items.truncate(items.len() - strip);
+    } else {
+        for ins in script_sig.instructions() {
+            match ins.map_err(|e| e.to_string())? {
+                Instruction::PushBytes(b) => items.push(b.as_bytes().to_vec()),
+                Instruction::Op(o) if o == opc::OP_PUSHNUM_1 => items.push(vec![1]),
+                Instruction::Op(o) => return Err(format!("opcode {o} in a scriptSig")),
+            }
+        }
+        if ctx == vm::LEGACY {
+            if items.last().map(|l| l.as_slice() != script.as_bytes()).unwrap_or(true) {
+                return Err("p2sh scriptSig does not end with the redeem script".into());
+            }
+            items.pop();
+        }
+    }
+    let mut out = vec![];
+    for b in items {
+        let e = if b.is_empty() {
+            El2(vm::tag::EMPTY, 0, 0)
+        } else if b == [1] {
+            El2(vm::tag::ONE, 0, 0)
+        } else if b == [0u8; 32] {
+            El2(vm::tag::ZERO32, 0, 0)
+        } else if let Some(k) = sf.ecdsa_ok.iter().position(|s| *s == b) {
+            El2(vm::tag::SIG, k as u8, 1)
+        } else if let Some(k) = sf.schnorr_ok.iter().position(|s| *s == b) {
+            El2(vm::tag::SIG, k as u8, 1)
+        } else if let Some(k) = fix.pks.iter().position(|p| p.to_bytes() == b || p.to_bytes()[1..] == b[..]) {
+            El2(vm::tag::KEY, k as u8, 0)
+        } else if let Some(j) = fix.pre.iter().position(|p| p[..] == b[..]) {
+            El2(vm::tag::PRE, j as u8, 0)
+        } else {
+            return Err(format!("unknown element {:02x?} in a descriptor-level satisfaction", b));
+        };
+        out.push(e);
+    }
+    Ok(out)
+}
+
+/// 0 = neither exists, 1 = both exist with the same elements, 2 = both exist but differ,
+/// 3 = only one of them exists, 4 = the descriptor-level result could not be interpreted
+fn compare_code(template: &GWit, got: Result<Result<Vec<El2>, String>, ()>) -> u8 {
+    match (template.kind == 0, got) {
+        (false, Err(())) => 0,
+        (true, Ok(Ok(els))) => {
+            if els == template.els {
+                1
+            } else {
+                2
+            }
+        }
+        (_, Ok(Err(_))) => 4,
+        _ => 3,
+    }
+}
+
 // --------------------------------------------------------------------------
 // shape artefacts
 
@@ -658,6 +757,10 @@ pub struct GRow {
     pub w: [usize; 6],
     pub sizes: [u32; 4],
     pub rep: (u32, u32),
+    /// descriptor-level entry points vs the miniscript-level templates (codes of `compare_code`):
+    /// get_satisfaction / get_satisfaction_mall of the primary wrapper, the same of the secondary
+    /// wrapper (sh(wsh(..)) in Segwitv0), into_plan / into_plan_mall of the secondary wrapper
+    pub dcodes: [u8; 6],
 }
 
 pub struct GShape {
@@ -792,11 +895,14 @@ fn lock_scenarios(abs: &[u32], rel: &[u32]) -> Vec<((u8, u8), (u32, u32))> {
 pub trait CtxInfo: ScriptContext {
     const ID: u8;
     fn descriptor(ms: Miniscript<Pk, Self>, fix: &Fix) -> Option<Descriptor<Pk>>;
+    /// a second wrapper around the same script (Segwitv0: sh(wsh(..)))
+    fn descriptor2(_ms: Miniscript<Pk, Self>, _fix: &Fix) -> Option<Descriptor<Pk>> { None }
     fn sane_params() -> miniscript::ValidationParams;
 }
 impl CtxInfo for Segwitv0 {
     const ID: u8 = vm::SEGWITV0;
     fn descriptor(ms: Miniscript<Pk, Self>, _: &Fix) -> Option<Descriptor<Pk>> { Descriptor::new_wsh(ms).ok() }
+    fn descriptor2(ms: Miniscript<Pk, Self>, _: &Fix) -> Option<Descriptor<Pk>> { Descriptor::new_sh_wsh(ms).ok() }
     fn sane_params() -> miniscript::ValidationParams { Segwitv0::SANE }
 }
 impl CtxInfo for Legacy {
@@ -875,6 +981,8 @@ pub fn shape_from_ms<Ctx: CtxInfo>(fix: &Fix, ms: &Miniscript<Pk, Ctx>, nkeys: u
     let scen = lock_scenarios(&abs, &rel);
     let lockvecs: Vec<(u8, u8)> = scen.iter().map(|(v, _)| *v).collect();
     let desc = if ms.ty.corr.base == miniscript::miniscript::types::Base::B { Ctx::descriptor(ms.clone(), fix) } else { None };
+    let desc2 = if ms.ty.corr.base == miniscript::miniscript::types::Base::B { Ctx::descriptor2(ms.clone(), fix) } else { None };
+    let sigfix = c13::SigFix::new();
     let mut wits: Vec<GWit> = vec![];
     let mut rows = vec![];
     let intern = |w: GWit, wits: &mut Vec<GWit>| -> usize {
@@ -940,9 +1048,68 @@ pub fn shape_from_ms<Ctx: CtxInfo>(fix: &Fix, ms: &Miniscript<Pk, Ctx>, nkeys: u
                         }
                         None => (plan_wit(fix, &Err(Descriptor::new_pk(fix.internal.clone())))?, plan_wit(fix, &Err(Descriptor::new_pk(fix.internal.clone())))?),
                     };
+                    // descriptor-level entry points on the same valuation
+                    let mut dcodes = [0u8; 6];
+                    {
+                        let gsat = GenSat { ga: &ga, sf: &sigfix };
+                        let run = |d: &Descriptor<Pk>, mall: bool| -> Result<Result<Vec<El2>, String>, ()> {
+                            let r = if mall { d.get_satisfaction_mall(&gsat) } else { d.get_satisfaction(&gsat) };
+                            match r {
+                                Ok((w, ss)) => Ok(unmap_satisfaction(fix, &sigfix, ctx, &w, &ss, &script)),
+                                Err(_) => Err(()),
+                            }
+                        };
+                        if let Some(d) = &desc {
+                            dcodes[0] = compare_code(&sat, run(d, false));
+                            dcodes[1] = compare_code(&sat_m, run(d, true));
+                        }
+                        if let Some(d2) = &desc2 {
+                            dcodes[2] = compare_code(&sat, run(d2, false));
+                            dcodes[3] = compare_code(&sat_m, run(d2, true));
+                            let mut assets = Assets::new();
+                            for i in 0..nkeys {
+                                if (sigs >> i) & 1 == 1 {
+                                    assets = assets.add(DescriptorPublicKey::from_str(&fix.pks[i].to_string()).unwrap());
+                                }
+                            }
+                            for j in 0..nh {
+                                if (pres >> j) & 1 == 1 {
+                                    assets = match inst.hashkinds[j] {
+                                        vm::H_SHA256 => assets.add(fix.sha[j]),
+                                        vm::H_HASH256 => assets.add(fix.h256[j]),
+                                        vm::H_RIPEMD160 => assets.add(fix.rip[j]),
+                                        _ => assets.add(fix.h160[j]),
+                                    };
+                                }
+                            }
+                            if rep.0 != 0 {
+                                assets = assets.after(absolute::LockTime::from_consensus(rep.0));
+                            }
+                            if let Some(r) = Sequence::from_consensus(rep.1).to_relative_lock_time() {
+                                assets = assets.older(r);
+                            }
+                            let p2 = plan_wit(fix, &d2.clone().into_plan(&assets))?;
+                            let p2m = plan_wit(fix, &d2.clone().into_plan_mall(&assets))?;
+                            let code = |t: &GWit, p: &GWit| -> u8 {
+                                match (t.kind == 0, p.kind == 0) {
+                                    (false, false) => 0,
+                                    (true, true) => {
+                                        if t.els == p.els && t.abs == p.abs && t.rel == p.rel {
+                                            1
+                                        } else {
+                                            2
+                                        }
+                                    }
+                                    _ => 3,
+                                }
+                            };
+                            dcodes[4] = code(&sat, &p2.0);
+                            dcodes[5] = code(&sat_m, &p2m.0);
+                        }
+                    }
                     let (i_sat, i_sat_m) = (intern(sat, &mut wits), intern(sat_m, &mut wits));
                     let w = [i_sat, i_sat_m, intern(dis, &mut wits), intern(dis_m, &mut wits), intern_plan(plan.0, i_sat, &mut wits), intern_plan(plan_m.0, i_sat_m, &mut wits)];
-                    rows.push(GRow { sigs, pres, after_ok: vec.0, older_ok: vec.1, w, sizes: [plan.1, plan.2, plan_m.1, plan_m.2], rep: *rep });
+                    rows.push(GRow { sigs, pres, after_ok: vec.0, older_ok: vec.1, w, sizes: [plan.1, plan.2, plan_m.1, plan_m.2], rep: *rep, dcodes });
                 }
             }
         }
@@ -1116,8 +1283,8 @@ pub fn emit_shape(out: &mut String, ident: &str, g: &GShape) {
     for r in &g.rows {
         let _ = write!(
             out,
-            "Row{{sigs:{},pres:{},after_ok:{},older_ok:{},sat:{},sat_m:{},sat_k:{},sat_m_k:{},plan_k:{},plan_m_k:{},dis:{},dis_m:{},plan:{},plan_m:{},plan_wsize:{},plan_ssize:{},plan_m_wsize:{},plan_m_ssize:{}}},",
-            r.sigs, r.pres, r.after_ok, r.older_ok, r.w[0], r.w[1], g.wits[r.w[0]].kind, g.wits[r.w[1]].kind, g.wits[r.w[4]].kind, g.wits[r.w[5]].kind, r.w[2], r.w[3], r.w[4], r.w[5], r.sizes[0], r.sizes[1], r.sizes[2], r.sizes[3]
+            "Row{{sigs:{},pres:{},after_ok:{},older_ok:{},sat:{},sat_m:{},sat_k:{},sat_m_k:{},plan_k:{},plan_m_k:{},dis:{},dis_m:{},plan:{},plan_m:{},plan_wsize:{},plan_ssize:{},plan_m_wsize:{},plan_m_ssize:{},dcodes:{:?}}},",
+            r.sigs, r.pres, r.after_ok, r.older_ok, r.w[0], r.w[1], g.wits[r.w[0]].kind, g.wits[r.w[1]].kind, g.wits[r.w[4]].kind, g.wits[r.w[5]].kind, r.w[2], r.w[3], r.w[4], r.w[5], r.sizes[0], r.sizes[1], r.sizes[2], r.sizes[3], r.dcodes
         );
     }
     let _ = writeln!(out, "];");
